@@ -249,3 +249,21 @@ def dense_policies():
                 lines.append('\t\t\t2:00\t%s\tY%%sT' % p)
             out.append(('dense', 'n=%d' % n, '%d transitions per year, %s' % (n, shape), '\n'.join(lines), z))
     return out
+
+def format_letters():
+    """-> [(family, signature, description, text, zone)] FORMAT x LETTER product (abbreviation assembly): every pairing whose
+    abbreviations have 3..6 characters - shorter ones cannot be written into a POSIX footer by zic (no oracle), longer ones
+    draw zic's own 'too many characters' warning and exceed the documented abbreviation size."""
+    fmts = ['X%sT', 'AAA/BBB', '%s', 'XY%s', '+05/+06', 'XXT', 'ABCD%sT', 'ABC%sT', 'LONGER/LONGES', '-00', '+0530/+0630']
+    lets = [('S', 'D'), ('-', 'S'), ('-', '-'), ('ST', 'DT'), ('STD', 'DST'), ('a', 'b'), ('LONG', 'LONGER'), ('WAT', 'WAST')]
+    out = []
+    for f in fmts:
+        for ls, ld in lets:
+            abb = f.split('/') if '/' in f else [f.replace('%s', '' if l == '-' else l) for l in (ls, ld)]
+            if any(not (3 <= len(x) <= 6) for x in abb):
+                continue
+            k = len(out); z, p = 'F/f%d' % k, 'F%d' % k
+            text = '\n'.join(['Rule\t%s\t1990\tmax\t-\tMar\tlastSun\t2:00\t1:00\t%s' % (p, ld), 'Rule\t%s\t1990\tmax\t-\tOct\tlastSun\t3:00\t0\t%s' % (p, ls),
+                              'Zone\t%s\t1:00\t%s\t%s' % (z, p, f)])
+            out.append(('format', '%s:%s/%s' % (f, ls, ld), 'FORMAT %s LETTER %s/%s' % (f, ls, ld), text, z))
+    return out
